@@ -11,7 +11,7 @@
 (*   mode "gnu":  --hash-style=both; .dynsym sorted by (bucket, name)      *)
 (*   mode "sysv": --hash-style=sysv; .dynsym in any input order            *)
 (***************************************************************************)
-EXTENDS HashTables
+EXTENDS HashTables, Bitwise
 
 CONSTANTS MaxNames, MaxSyms, MaxMult,
           MaxSymsSysv,    \* mode "sysv" tries every input order: keep it smaller
@@ -34,6 +34,10 @@ P(nb, mw, sft, u) == [nb |-> nb, mw |-> mw, sft |-> sft, u |-> u]
    with and without an undefined symbol in front; two bloom words / another shift once *)
 QuickParams == {P(0, 1, 2, FALSE), P(1, 1, 2, TRUE), P(2, 1, 2, FALSE), P(4, 1, 2, TRUE),
                 P(2, 2, 1, TRUE), P(4, 2, 2, FALSE)}
+(* a bloom word count that is not a power of two: wild's writer picks the word with % n, the
+   loader with & (n - 1) - must be rejected (with the assertion: every lookup faults; without:
+   lookups miss symbols whose bits went to another word) *)
+NonPow2Params == {P(0, 3, 2, FALSE), P(2, 3, 2, TRUE), P(4, 3, 2, FALSE)}
 FullParams == {P(nb, mw, sft, u) : nb \in {0, 1, 2, 4, 8}, mw \in {1, 2, 4}, sft \in {1, 2, 5}, u \in BOOLEAN}
 BothModes == {"gnu", "sysv"}
 GnuMode == {"gnu"}
@@ -54,6 +58,10 @@ ASSUME ArithExact ==
         /\ \A n \in 1..9 : ModN(h, n) = v % n /\ ModNFast(h, n) = v % n /\ ModNSlow(h, n) = v % n
         /\ \A s \in 0..(2 * HalfBits + 2) : ShrModC(h, s) = (v \div 2^s) % C
         /\ \A m \in 1..4 : DivCModM(h, m) = (v \div C) % m
+        /\ \A m \in {1, 2, 4, 8} : BloomWordIndex(h, m) = (v \div C) % m      \* & = % for powers of two
+        /\ BloomWordIndex(h, 3) = ((v \div C) \div 2 % 2) * 2                  \* & 2 keeps bit 1 only
+        /\ BloomWordIndex(h, 0) = v \div C
+        /\ \A b \in 0..15 : AndNat(v, b) = (v & b)                             \* Bitwise community module
         /\ ModC(h) = v % C
         /\ \A w \in AllVals : SameIgnoringLow(H(w), h) <=> (w \div 2 = v \div 2)
 
